@@ -91,7 +91,8 @@ PROPS = {
         "one evaluation = one configuration list (1..3 entries naming tenants exactly or by glob, then 0..2 default entries; disjoint endpoints per "
         "entry so the answer names the entry) loaded by 1..2 nodes; 2..4 tasks with 2..6 lookups each over a pool of 10 tenant names; the first lookup "
         "of every task is issued before its first park (concurrent on the cold cache, usually for the same tenant), later ones are interleaved by the "
-        "scheduler. distinct = distinct event-log hash.",
+        "scheduler; a third of the runs then installs a second configuration (same entries and endpoints, tenant lists rotated among the named "
+        "entries) after the first through a real receive.Handler and checks what the handler routes with. distinct = distinct event-log hash.",
         "Configurations, tenants and interleavings are sampled from the seed.",
         ["default entries are placed after all entries that name tenants (DESIGN §6b)",
          "glob patterns are well-formed (*, ?, [..] without negation/escapes); tenant names contain no path separator (thanos rejects those)"],
